@@ -1673,7 +1673,8 @@ def Op.argsHoldDict : Op → Bool
 
 /-- the values the object's elements are made of -/
 def Obj.parts : Obj → VL
-  | .val (dict d) | .mdict d | .view _ d => dictValues d ++ dictKeys d
+  | .val (dict d) | .mdict d => dictValues d ++ dictKeys d
+  | .view k d => viewElems k d
   | .val (tuple l) | .val (list l) | .val (Value.set l) | .val (iter l) | .dset l => l
   | .val _ | .opaque _ => []
   | .lazy s | .ordering s _ => s.items
